@@ -337,7 +337,10 @@ def rust_module(shapes, derives="Debug, Clone, PartialEq, Difference", setters=F
         else:
             ty = rust_types(sh, f"T{sid}", chunk, derives)
             if sh.kind == 'S': chunk.append(f"impl SetField for T{sid} {{}}\n")
-        if sh.kind == 'S': chunk.append(f"impl Wire for T{sid} {{}}\n")
+        if sh.kind == 'S':
+            chunk.append(f"#[cfg(not(all(feature = \"ns\", feature = \"sd\")))]\nimpl Wire for T{sid} {{}}\n#[cfg(all(feature = \"ns\", feature = \"sd\"))]\nimpl Wire for T{sid} {{\n"
+                         f"    fn wire(id: &str, a: &Self, b: &Self, x: &Self, out: &mut String) {{ wire_obs::<Self>(id, a, b, x, out) }}\n"
+                         f"    fn wire_decode(id: &str, a: &Self, ns: &[u8], bc: &[u8], out: &mut String) {{ wire_dec::<Self>(id, a, ns, bc, out) }}\n}}\n")
         out.append('\n'.join(chunk).replace('MAPEQ', 'key_only' if ko else 'key_and_value'))
         arms.append(f'        "{sid}" => run::<{ty}>(toks),')
     return ("// GENERATED by /verif/tools/gen_derive.py\n#![allow(non_camel_case_types, dead_code, unused_imports)]\n"
